@@ -191,3 +191,130 @@ Theorem c07_node_written_once_is_source :
     forall notnil empty : bool, gtrue (upd (upd env0 "nloc" (b2z notnil)) "loc.isEmpty()" (b2z empty)) c = Some (notnil && empty).
 Proof. exact Decisions.node_written_once. Qed.
 Print Assumptions c07_node_written_once_is_source.
+
+(* ---------------------------------------------------------------------------------------------- *)
+(* FAILED FLUSH CALLS ANYWHERE IN A HISTORY (DFaultRefine.v: the refinement relation of C02 generalised to a dirty tail
+   beyond the last root record and junk beyond the store size).  fhistory_ok is a boolean evaluated along the faulted
+   byte-level run: the side conditions of C02, every planned fault fires, no look-alike root record in the torn bytes,
+   no FlushRevert while the store is dirty (known finding revert-after-failed-flush, reproduced by the model:
+   c07_dirty_revert_refuted), and no re-open of a file that holds bytes but no completed Flush (the documented
+   "no roots" error: c07_first_flush_reopen_refuted). *)
+From GK Require Import DFaultRefineAux DFaultRefine.
+
+Theorem c07_failed_flush_invisible_anywhere :
+  forall fops,
+  ops_ok [] (strip fops) -> fhistory_ok fops ->
+  map fst (completed fops (dfrun dinit fops)) = run (init true) (strip fops).
+Proof. exact DFaultRefine.dfrun_refines_store_general. Qed.
+Print Assumptions c07_failed_flush_invisible_anywhere.
+
+Theorem c07_failed_attempts_err_anywhere :
+  forall fops i k torn,
+  fhistory_ok fops -> nth_error fops i = Some (FFlushFail k torn) ->
+  exists f, nth_error (dfrun dinit fops) i = Some (RErr, f).
+Proof. exact DFaultRefine.failed_attempts_err_general. Qed.
+Print Assumptions c07_failed_attempts_err_anywhere.
+
+Theorem c07_anywhere_nonvacuous :
+  exists fops, fhistory_ok fops /\ ops_ok [] (strip fops) /\
+    (exists k t, In (FFlushFail k t) fops) /\ ~ DFaultHist.retried fops.
+Proof. exact DFaultRefine.ex_general. Qed.
+Print Assumptions c07_anywhere_nonvacuous.
+
+Theorem c07_dirty_revert_refuted :
+  ops_ok [] (strip cex_revert) /\
+  map fst (completed cex_revert (dfrun dinit cex_revert)) =
+    [ROk; ROk; ROk; ROk; ROk; ROk; ROk; RVal (Some [118; 50]%N)] /\
+  run (init true) (strip cex_revert) = [ROk; ROk; ROk; ROk; ROk; ROk; ROk; RVal None] /\
+  fhist_okb dinit 0 (firstn 7 cex_revert) = true /\ fhist_okb dinit 0 cex_revert = false.
+Proof. exact DFaultRefine.dirty_revert_excluded. Qed.
+Print Assumptions c07_dirty_revert_refuted.
+
+Theorem c07_first_flush_reopen_refuted :
+  ops_ok [] (strip cex_reopen) /\
+  map fst (completed cex_reopen (dfrun dinit cex_reopen)) = [ROk; ROk; RErr] /\
+  run (init true) (strip cex_reopen) = [ROk; ROk; ROk] /\
+  fhist_okb dinit 0 (firstn 3 cex_reopen) = true /\ fhist_okb dinit 0 cex_reopen = false.
+Proof. exact DFaultRefine.failed_first_flush_reopen. Qed.
+Print Assumptions c07_first_flush_reopen_refuted.
+
+(* ---------------------------------------------------------------------------------------------- *)
+(* A FAILING ReadAt (LazyFault.v): a key-only lookup on a store just opened whose k-th ReadAt fails, and the retried
+   call; compared call by call with the implementation under fault injection *)
+From GK Require Import Lazy LazyProofs LazyMut LazyMutProofs LazyFault LazyFaultProofs.
+
+Theorem c07_read_fault_prefix :
+  forall ts k s,
+  (k < List.length (reads_of s ts))%nat ->
+  fst (fst (run_fault k s ts)) = firstn (S k) (reads_of s ts) /\ snd (run_fault k s ts) = true.
+Proof. exact LazyFaultProofs.run_fault_prefix. Qed.
+Print Assumptions c07_read_fault_prefix.
+
+Theorem c07_read_fault_none :
+  forall ts k s,
+  (List.length (reads_of s ts) <= k)%nat ->
+  fst (fst (run_fault k s ts)) = reads_of s ts /\ snd (run_fault k s ts) = false.
+Proof. exact LazyFaultProofs.run_fault_none. Qed.
+Print Assumptions c07_read_fault_none.
+
+Theorem c07_retry_reads_the_rest :
+  forall ts k s,
+  (k < List.length (reads_of s ts))%nat ->
+  let s' := snd (fst (run_fault k s ts)) in
+  exists m : nat, (m <= k)%nat /\ (k - m <= 1)%nat /\
+    reads_of s ts = firstn m (reads_of s ts) ++ reads_of s' ts.
+Proof. exact LazyFaultProofs.retry_reads_the_rest. Qed.
+Print Assumptions c07_retry_reads_the_rest.
+
+Theorem c07_read_fault_key_only :
+  forall cmp t key k,
+  let '(attempt, retry, _) := get_fault_reads cmp t key k in
+  Forall (fun r => in_node t r \/ in_keypart t r) attempt /\
+  Forall (fun r => in_node t r \/ in_keypart t r) retry.
+Proof. exact LazyFaultProofs.get_fault_key_only. Qed.
+Print Assumptions c07_read_fault_key_only.
+
+Theorem c07_read_fault_from_file :
+  forall cmp f t b key k,
+  rep f t -> persisted t -> below t b -> (Treap.size t <= S (List.length f))%nat ->
+  get_fault_file cmp f (root_loc t) b key k = Some (get_fault_reads cmp t key k).
+Proof. exact LazyFaultProofs.get_fault_file_spec. Qed.
+Print Assumptions c07_read_fault_from_file.
+
+(* ---------------------------------------------------------------------------------------------- *)
+(* ORDER OF EFFECTS in the source (regenerated on every run): Store.size and the recorded location move only after
+   every WriteAt of a record; mutations publish only through rootCAS after the whole rebuild and restore the marks when
+   it failed *)
+
+Theorem c07_item_write_order_is_source :
+  let l := call_list "itemLoc.write" in
+  before "c.store.callbacks.BeforeItemWrite" "atomic.LoadInt64" l = true /\
+  before "atomic.LoadInt64" "c.store.file.WriteAt" l = true /\
+  before "c.store.file.WriteAt" "c.store.ItemValWrite" l = true /\
+  before "c.store.ItemValWrite" "atomic.StoreInt64" l = true /\
+  before "atomic.StoreInt64" "iloc.setLoc" l = true /\
+  before "iItem.NumValBytes" "c.store.file.WriteAt" l = true /\
+  before "c.store.callbacks.BeforeItemWrite" "iItem.NumValBytes" l = true.
+Proof. exact Decisions.item_write_order. Qed.
+Print Assumptions c07_item_write_order_is_source.
+
+Theorem c07_node_write_order_is_source :
+  let l := call_list "nodeLoc.write" in
+  before "o.getSize" "o.file.WriteAt" l = true /\
+  before "o.file.WriteAt" "o.setSize" l = true /\
+  before "o.setSize" "nloc.setLoc" l = true.
+Proof. exact Decisions.node_write_order. Qed.
+Print Assumptions c07_node_write_order_is_source.
+
+Theorem c07_mutation_publish_order_is_source :
+  before "t.rootAddRef" "t.store.union" (call_list "Collection.SetItem") = true /\
+  before "t.store.union" "t.unmarkReclaimable" (call_list "Collection.SetItem") = true /\
+  before "t.store.union" "t.rootCAS" (call_list "Collection.SetItem") = true /\
+  before "t.rootAddRef" "t.store.split" (call_list "Collection.Delete") = true /\
+  before "t.store.split" "t.store.join" (call_list "Collection.Delete") = true /\
+  before "t.store.join" "t.rootCAS" (call_list "Collection.Delete") = true /\
+  count_occ string_dec (call_list "Collection.Delete") "t.unmarkReclaimable" = 2%nat /\
+  count_occ string_dec (call_list "Collection.SetItem") "t.rootCAS" = 1%nat /\
+  count_occ string_dec (call_list "Collection.Delete") "t.rootCAS" = 1%nat.
+Proof. exact Decisions.mutation_publish_order. Qed.
+Print Assumptions c07_mutation_publish_order_is_source.
